@@ -61,6 +61,11 @@ func c06Meta(kind string) string {
 		return `{"io.modelcontextprotocol/protocolVersion":"2026-07-28","io.modelcontextprotocol/clientInfo":{"name":"m","version":"1"}}`
 	case "badcaps":
 		return `{"io.modelcontextprotocol/protocolVersion":"2026-07-28","io.modelcontextprotocol/clientCapabilities":"yes"}`
+	case "badcaps-member":
+		// an object, but a member the protocol defines has the wrong type
+		return `{"io.modelcontextprotocol/protocolVersion":"2026-07-28","io.modelcontextprotocol/clientCapabilities":{"roots":7},"io.modelcontextprotocol/clientInfo":{"name":"m","version":"1"}}`
+	case "badcaps-nested":
+		return `{"io.modelcontextprotocol/protocolVersion":"2026-07-28","io.modelcontextprotocol/clientCapabilities":{"elicitation":{"form":"yes"}}}`
 	case "nullcaps":
 		return `{"io.modelcontextprotocol/protocolVersion":"2026-07-28","io.modelcontextprotocol/clientCapabilities":null,"io.modelcontextprotocol/clientInfo":{"name":"m","version":"1"}}`
 	case "badinfo":
@@ -118,7 +123,7 @@ var c06Features = []struct{ method, params string }{
 
 func (g *c06Gen) next(httpOnly bool) c06Msg {
 	r := g.r
-	metas := []string{"full", "full", "noinfo", "nocaps", "badcaps", "nullcaps", "badinfo", "badver"}
+	metas := []string{"full", "full", "noinfo", "nocaps", "badcaps", "nullcaps", "badinfo", "badver", "badcaps-member", "badcaps-nested"}
 	if httpOnly {
 		// sessionless HTTP: only requests that carry the per-request metadata
 		f := c06Features[r.Intn(len(c06Features))]
@@ -326,7 +331,7 @@ func runC06(c *vh.Case, spec c06Spec) {
 		if newProto {
 			expectCode := 0
 			switch m.Meta {
-			case "badinfo", "nocaps", "badcaps", "nullcaps":
+			case "badinfo", "nocaps", "badcaps", "nullcaps", "badcaps-member", "badcaps-nested":
 				expectCode = -32602
 			case "badver":
 				expectCode = -32022
@@ -620,7 +625,7 @@ func runC06(c *vh.Case, spec c06Spec) {
 				c.Violate("new-protocol-served-by-stateful-endpoint", "message %d %s (header Mcp-Protocol-Version=%q, established=%v) was served (reached handler=%v, reply %+v): a stateful endpoint does not support 2026-07-28 and must answer -32022 (or -32602 for incomplete metadata)", i, m.Raw, spec.Headers[i], spec.Established, reachedThis, rep)
 				break
 			}
-			incomplete := m.Meta == "nocaps" || m.Meta == "badcaps" || m.Meta == "nullcaps" || m.Meta == "badinfo"
+			incomplete := m.Meta == "nocaps" || m.Meta == "badcaps" || m.Meta == "nullcaps" || m.Meta == "badinfo" || m.Meta == "badcaps-member" || m.Meta == "badcaps-nested"
 			if rep.Seen && !(rep.Code == -32022 || (incomplete && rep.Code == -32602) || (removed[m.Method] && rep.Code == -32601)) {
 				c.Violate("wrong-metadata-rejection", "message %d %s on a stateful endpoint (header %q): expected -32022 (or -32602 for incomplete metadata), got %+v", i, m.Raw, spec.Headers[i], rep)
 				break
